@@ -852,6 +852,79 @@ func c20r4(p *Program, r *Report) {
 	if n < 3 {
 		r.Unresolved("setupTLSConfig: expected ReadFile, AppendCertsFromPEM and LoadX509KeyPair calls, found %d", n)
 	}
+	// a half-configured client certificate (only one of CertPath / KeyPath) must end in LoadX509KeyPair's error: every
+	// success return that was reached without loading the pair knows both paths to be empty
+	if fi := r.NeedFunc("setupTLSConfig"); fi != nil {
+		for _, u := range p.unitsOf(fi) {
+			uinfo := u.Pkg.TypesInfo
+			hasLoad := false
+			for _, c := range callsIn(u.Decl.Body) {
+				if calleeName(uinfo, c) == "tls.LoadX509KeyPair" {
+					hasLoad = true
+				}
+			}
+			if !hasLoad {
+				continue
+			}
+			ug := p.GraphOf(u)
+			ef := ug.Events(func(st Step) []string {
+				if st.Kind != StNode {
+					return nil
+				}
+				for _, c := range callsIn(st.Node) {
+					if calleeName(uinfo, c) == "tls.LoadX509KeyPair" {
+						return []string{"load"}
+					}
+				}
+				return nil
+			})
+			ug.markNodes = map[ast.Node]string{}
+			for _, c := range callsIn(u.Decl.Body) {
+				if calleeName(uinfo, c) == "tls.LoadX509KeyPair" {
+					ug.markNodes[p.stmtOf(c, u)] = "loaded"
+				}
+			}
+			ug.factsCache, ug.factsPSCache = nil, nil
+			ps := ug.GuardFactsPSAbout(func(atom string) bool {
+				return strings.HasPrefix(atom, "§") || strings.Contains(atom, "CertPath") || strings.Contains(atom, "KeyPath") || !strings.Contains(atom, " ") && !strings.Contains(atom, ".")
+			})
+			ug.markNodes = nil
+			ug.factsCache, ug.factsPSCache = nil, nil
+			for _, e := range ug.Exits() {
+				rs, ok := e.Node.(*ast.ReturnStmt)
+				if !ok || len(rs.Results) == 0 || !isNil(uinfo, rs.Results[len(rs.Results)-1]) {
+					continue
+				}
+				s, okS := ef.ExitState(e)
+				if !okS || s.Must["load"] {
+					continue
+				}
+				ds, _ := ps.Before(rs)
+				okBoth := len(ds) > 0
+				for _, f := range ds {
+					if s2 := f.m["§loaded"]; s2 {
+						continue
+					}
+					cert, key := false, false
+					for atom, v := range f.m {
+						a := strings.ReplaceAll(atom, " ", "")
+						if v && (strings.HasSuffix(a, `.CertPath==""`) || strings.HasPrefix(a, `""==`) && strings.HasSuffix(a, ".CertPath")) {
+							cert = true
+						}
+						if v && (strings.HasSuffix(a, `.KeyPath==""`) || strings.HasPrefix(a, `""==`) && strings.HasSuffix(a, ".KeyPath")) {
+							key = true
+						}
+					}
+					// disjuncts that did load the pair are fine (they come from the other branch)
+					if !(cert && key) && !factsAfterLoad(f) {
+						okBoth = false
+					}
+				}
+				r.Check(okBoth, rs, u.Name+" skips the client certificate only when neither CertPath nor KeyPath is set", "both known empty on every path that does not load the pair",
+					"a success return is reached without LoadX509KeyPair on a path where CertPath or KeyPath may be set: with only one of the two configured the session connects over TLS without the client certificate the user asked for, instead of reporting the error")
+			}
+		}
+	}
 	for _, link := range []struct{ caller, callee string }{{"connConfig", "setupTLSConfig"}, {"NewSession", "connConfig"}} {
 		cf := r.NeedFunc(link.caller)
 		if cf == nil {
@@ -1128,6 +1201,16 @@ func isTLSConfigField(fv *types.Var) bool {
 	}
 	for i := 0; i < st.NumFields(); i++ {
 		if st.Field(i) == fv {
+			return true
+		}
+	}
+	return false
+}
+
+// factsAfterLoad: the disjunct comes from the branch that loaded the key pair (its error was tested).
+func factsAfterLoad(f Facts) bool {
+	for atom := range f.m {
+		if strings.HasPrefix(atom, "§loaded") {
 			return true
 		}
 	}
